@@ -4,6 +4,7 @@ import (
 	"strings"
 
 	"github.com/tidwall/tile38/internal/collection"
+	"github.com/tidwall/tile38/internal/object"
 )
 
 // C01-K3: one command from a table of edge cases (malformed, failing and succeeding variants of every
@@ -13,8 +14,10 @@ import (
 func vhNoEmptyCollections(s *Server) bool {
 	ok := true
 	s.cols.Scan(func(key string, col *collection.Collection) bool {
-		if col.Count() == 0 {
-			ok = false
+		n := 0
+		col.Scan(false, nil, nil, func(o *object.Object) bool { n++; return true })
+		if n == 0 || col.Count() != n {
+			ok = false // no retrievable object, or the counter that decides "empty" disagrees
 		}
 		return true
 	})
@@ -75,11 +78,14 @@ func vhEdgeCommands() [][]string {
 		{"JSET", "ghost", "id1", "a.b", "5"},
 		{"JDEL", "user", "u1", "name"},
 		{"SET", "newcol", "x", "STRING", "v"},
+		{"DEL", "empties", "e1"},
+		{"PDEL", "empties", "*"},
+		{"SET", "empties", "e1", "POINT", "1", "2"},
 		{"FLUSHDB"},
 	}
 }
 
-//verif:cfg b_commands=51_edge_cases_of_the_keyspace_commands b_dataset=fixed(points,string,deadline,fields,JSON_document) b_output=RESP|JSON ignorego=1
+//verif:cfg b_commands=54_edge_cases_of_the_keyspace_commands b_dataset=fixed(points,string,deadline,fields,JSON_document) b_output=RESP|JSON ignorego=1
 func VH_C01_errors_change_nothing() {
 	s, _ := vhGateServer()
 	table := vhEdgeCommands()
